@@ -576,6 +576,8 @@ class UnitDatabase(Singleton):
         )
 
         self.categories_to_quantity_types[category] = info
+        # verdicts cached before this registration may no longer hold
+        self._category_unit_valid.clear()
         return info
 
     def IsValidCategory(self, category: str) -> bool:
@@ -796,6 +798,8 @@ class UnitDatabase(Singleton):
             raise RuntimeError("Unit already registered: {} ({})".format(name, unit))
 
         quantity_type_list.append(info)
+        # verdicts cached before this registration may no longer hold
+        self._category_unit_valid.clear()
 
     def AddUnitBase(self, quantity_type: str, name: str, unit: str) -> None:
         """
